@@ -21,6 +21,9 @@ for patch in items:
     if r.returncode != 0:
         print(name, "patch-does-not-apply", r.stdout[:200]); continue
     props = ALL if (allprops or not name.startswith("C")) else [name.split("_")[0]]
+    pm = os.path.join(os.path.dirname(patch), "PROPS.json")
+    if os.path.exists(pm) and not allprops:
+        props = json.load(open(pm)).get(name, props)
     env = dict(os.environ, PYVC_REPO=scratch, PYTHONPATH=scratch + "/src", PYTHONDONTWRITEBYTECODE="1")
     for prop in props:
         t0 = time.time()
